@@ -90,7 +90,13 @@ pub fn specs(thorough: bool) -> Vec<BuildSpec> {
         }
     }
     // (2c) paths that are related to each other: one a suffix / prefix of the other, same base name in different directories
-    let related: [&[&str]; 15] = [
+    let related: [&[&str]; 19] = [
+        // names that look like archive-format markers
+        &["/TRAILER!!!", "/a", "/z"],
+        &["/d/TRAILER!!!", "/d/x", "./TRAILER!!!"],
+        &["/070701", "/07070X00000000", "/.x", "/..a"],
+        // destinations that are not in their shortest form
+        &["/ns/demo//bin/tool.py", "/ns/./demo/lib/x", "//ns2/y"],
         // the relative './' spelling with a hidden first component
         &["./.config/demo/settings.toml", "/config/demo/settings.toml"],
         &["./.hidden", "./visible", "./..d/x"],
@@ -140,6 +146,21 @@ pub fn specs(thorough: bool) -> Vec<BuildSpec> {
             }
             files.push(FileSpec::new("/s/z-last", Content::Bytes(b"last".to_vec())));
             v.push(mk(files, c, large));
+        }
+    }
+    // (2d') entries that are not regular files but are built from sources with content, between regular neighbours
+    for c in [Comp::None, Comp::Gzip(6)] {
+        for large in [false, true] {
+            let mut d = FileSpec::new("/t/dir", Content::Bytes(b"content of a directory entry".to_vec()));
+            d.mode = ModeSpec::Dir(0o755);
+            let mut l = FileSpec::new("/t/link", Content::Bytes(b"content of a link entry".to_vec()));
+            l.mode = ModeSpec::Symlink(0o777);
+            l.symlink = Some("dir".into());
+            let mut r = FileSpec::new("/t/raw", Content::Text(9));
+            r.mode = ModeSpec::Raw(0o640);
+            let mut g = FileSpec::new("/t/ghost", Content::Text(11));
+            g.flags = vec!["ghost"];
+            v.push(mk(vec![FileSpec::new("/t/a", Content::Bytes(b"a".to_vec())), d, g, l, r, FileSpec::new("/t/z", Content::Bytes(b"zz".to_vec()))], c, large));
         }
     }
     // (2e) many files: counts that cross 8- and 16-bit boundaries, in one directory and in one directory each
@@ -346,7 +367,7 @@ pub fn run(ctx: &Ctx) -> i32 {
         "built",
         "A",
         &format!(
-            "{} packages built by the library: 0–3 files; sizes {:?}{} (every residue mod 4) × compressible / incompressible content; name lengths 1–5, 255, 4000; every compression type {} × standard and stripped (large-file, forced by the verif hook) layout; all ordered size tuples over {{0,1,3,4,5,4096}} for 2 and 3 files given out of path order; file sets whose paths are suffixes / prefixes / case variants / dot-prefixed twins of one another; sources that are kernel-backed files (stat size 0) or symbolic links; 255 / 256 / 257 / 1000 files (thorough: 65 535 / 65 536 / 65 537) in one directory and in one directory each; zstd levels 20–22. Oracle: files() yields exactly the given files in path order, bytes identical, length = recorded size, SHA-256 = recorded digest. non-trivial = package with ≥ 1 file",
+            "{} packages built by the library: 0–3 files; sizes {:?}{} (every residue mod 4) × compressible / incompressible content; name lengths 1–5, 255, 4000; every compression type {} × standard and stripped (large-file, forced by the verif hook) layout; all ordered size tuples over {{0,1,3,4,5,4096}} for 2 and 3 files given out of path order; file sets whose paths are suffixes / prefixes / case variants / dot-prefixed twins of one another; sources that are kernel-backed files (stat size 0) or symbolic links; 255 / 256 / 257 / 1000 files (thorough: 65 535 / 65 536 / 65 537) in one directory and in one directory each; names that look like archive markers (TRAILER!!!, 070701); directory / link / ghost / untyped entries built from sources with content; zstd levels 20–22. Oracle: files() yields exactly the given files in path order, bytes identical, length = recorded size, SHA-256 = recorded digest. non-trivial = package with ≥ 1 file",
             specs.len(), SIZES, if ctx.thorough() { ", 1 MiB, 5 MiB" } else { "" }, if ctx.thorough() { "and every documented level (gzip 0–9, xz 0–9, zstd 1–22)" } else { "at three levels each" }
         ),
         a,
